@@ -78,12 +78,20 @@ def rename_requires(reqs, mapping):
     return out
 
 
-def lookup(table, base, n, used_shapes=None):
+def lookup(table, base, n, used_shapes=None, _hoisted=False):
     for e in table:
         if e["_key"] == base and (e["ordinal"] is None or e["ordinal"] == n):
             return e
     if used_shapes is None:
         return None
+    if not _hoisted and _re.search(r"::\{closure#\d+\}\|", base):
+        # a loop body turned into the closure of an iterator adaptor (`for x in v {..}` -> `v.iter().for_each(|x| ..)`): the site is the reviewed
+        # one of the enclosing function (its `dom` requirements are then evaluated where the closure is built, see check_requires)
+        e = lookup(table, _re.sub(r"(::\{closure#\d+\})+\|", "|", base, count=1), None, used_shapes, True)
+        if e is not None and id(e) not in used_shapes:
+            e2 = dict(e)
+            e2["hoisted"] = True
+            return e2
     # second chance: same function, same site kind, same text up to the names of local variables (each entry at most once per run)
     parts = base.split("|", 2)
     if len(parts) != 3:
@@ -190,7 +198,7 @@ site("receiver::objectreceiver::ObjectReceiver::push_to_block2|index|VecDeque::i
      [("guard", "receiver::objectreceiver::ObjectReceiver::push_to_block2", r"block_offset < VecDeque::len\(&self\.blocks\)|VecDeque::len\(&self\.blocks\) <= \(?block_offset")])
 site("receiver::objectreceiver::ObjectReceiver::write_blocks|index|VecDeque::index_mut(&self.blocks, block_offset)",
      "loop condition: sbn >= blocks_offset && sbn - blocks_offset < blocks.len(), block_offset = sbn - blocks_offset",
-     [("dom", r"\(sbn - self\.blocks_offset\) < VecDeque::len\(&self\.blocks\)")])
+     [("dom", r"\(sbn - self\.blocks_offset\) < VecDeque::len\(&self\.blocks\) || checked_sub\(sbn, self\.blocks_offset\)@Some\.0 < VecDeque::len\(&self\.blocks\)")])
 site("receiver::objectreceiver::ObjectReceiver::push_to_block2|Overflow(Add)|Overflow(Add)(self.total_allocated_blocks_size, block_length)",
      "block_length < 2^48 (u32 symbols x u16 symbol length, or partition::block_length <= a_large * e) and at most 2 * 2048 + 1 blocks are tracked: the sum stays below 2^61", [], 0)
 site("receiver::objectreceiver::ObjectReceiver::push_to_block2|Overflow(Add)|Overflow(Add)(self.total_allocated_blocks_size, block_length)",
@@ -221,6 +229,8 @@ site("<fec::nocode::NoCodeDecoder as fec::FecDecoder>::decode|unwrap|Option::unw
 site("<fec::rscodec::RSGalois8Codec as fec::FecDecoder>::decode|index|Vec::index(&self.decode_shards, i)",
      "i < params.nb_source_symbols <= decode_shards.len() = nb_source_symbols + nb_parity_symbols (constructor)", [], 0)
 site("<fec::rscodec::RSGalois8Codec as fec::FecDecoder>::decode|index|Vec::index(&self.decode_shards, i)", "same bound", [], 1)
+site("<fec::rscodec::RSGalois8Codec as fec::FecDecoder>::decode|index|Vec::index(&self.decode_shards, RangeTo::RangeTo{end: self.params.nb_source_symbols})",
+     "the same bound for the slice form `&decode_shards[..nb_source_symbols]`: nb_source_symbols <= decode_shards.len() = nb_source_symbols + nb_parity_symbols (constructor)")
 site("<fec::rscodec::RSGalois8Codec as fec::FecDecoder>::decode|unwrap|Option::unwrap(Option::as_ref(&Vec::index(&self.decode_shards, i)))",
      "dominated by the `is_none() -> return false` test on the same slot in the same iteration",
      [("dom", r"decode_shards.* is Some")])
